@@ -23,7 +23,7 @@ use rustc_middle::mir::{
     self, AggregateKind, BasicBlock, Body, BorrowKind, Const as MirConst, ConstValue, Operand,
     Place, PlaceRef, ProjectionElem, Rvalue, StatementKind, TerminatorKind, UnwindAction,
 };
-use rustc_middle::ty::print::with_no_trimmed_paths;
+use rustc_middle::ty::print::{with_no_trimmed_paths, with_no_visible_paths};
 use rustc_middle::ty::{self, GenericArgsRef, Instance, Ty, TyCtxt, TypingEnv};
 use rustc_span::Span;
 
@@ -39,7 +39,7 @@ impl rustc_driver::Callbacks for Cb {
         let name = tcx.crate_name(LOCAL_CRATE).to_string();
         if name == want {
             if let Ok(out) = std::env::var("LMSFACTS_OUT") {
-                let facts = with_no_trimmed_paths!(dump_crate(tcx));
+                let facts = with_no_visible_paths!(with_no_trimmed_paths!(dump_crate(tcx)));
                 let mut s = String::with_capacity(1 << 22);
                 facts.write(&mut s);
                 s.push('\n');
@@ -975,9 +975,28 @@ fn dump_crate<'tcx>(tcx: TyCtxt<'tcx>) -> J {
         }
     }
 
+    // public items visible at the crate root (direct items and re-exports)
+    let mut exports = Vec::new();
+    for ch in tcx.module_children_local(rustc_hir::def_id::CRATE_DEF_ID) {
+        if !ch.vis.is_public() {
+            continue;
+        }
+        if let Some(did) = ch.res.opt_def_id() {
+            exports.push(
+                J::obj()
+                    .put("name", J::s(ch.ident.name.to_string()))
+                    .put("path", J::s(def_path(tcx, did)))
+                    .put("crate", J::s(crate_of(tcx, did)))
+                    .put("kind", J::s(format!("{:?}", tcx.def_kind(did)))),
+            );
+        }
+    }
+
     J::obj()
         .put("crate", J::s(tcx.crate_name(LOCAL_CRATE).to_string()))
+
         .put("nonce", J::s(std::env::var("LMSFACTS_NONCE").unwrap_or_default()))
+        .put("exports", J::Arr(exports))
         .put("cfg", J::Arr(cfgs))
         .put("crate_attrs", J::Arr(crate_attrs))
         .put("functions", J::Arr(fns))
